@@ -14,9 +14,9 @@ import tempfile
 import time
 
 VERIF = os.path.dirname(os.path.dirname(os.path.abspath(__file__)))
-REPO = os.environ.get("VERIF_REPO", "/repo")
+REPO = os.environ.get("VERIF_REPO") or "/repo"
 REPO_SRC = os.path.join(REPO, "src")
-MODEL_BIN = os.path.join(VERIF, "bin", "ngsmodel")
+MODEL_BIN = os.environ.get("VERIF_MODEL_BIN") or os.path.join(VERIF, "bin", "ngsmodel")
 COQ_DIR = os.path.join(VERIF, "coq")
 PY = "/venv/bin/python"
 
@@ -266,12 +266,14 @@ def _trim(o, limit=600):
 
 
 def load_findings(pid):
-    path = os.path.join(VERIF, "known_findings.json")
-    if not os.path.exists(path):
-        return []
-    with open(path) as f:
-        data = json.load(f)
-    return [e for e in data.get("findings", []) if e.get("property") == pid]
+    out = []
+    for path in (os.path.join(VERIF, "known_findings.json"),
+                 os.path.join(VERIF, "findings", f"{pid}.json")):
+        if os.path.exists(path):
+            with open(path) as f:
+                data = json.load(f)
+            out += [e for e in data.get("findings", []) if e.get("property") == pid]
+    return out
 
 
 def write_replay(pid, payload):
